@@ -298,7 +298,7 @@ func init() {
 			{Scenario: "recover-qmax-dynamic", Depth: 4, MapModes: []int{1}, ExtraDepth: 4}, {Scenario: "recover-ugm-sched-2", Depth: 4, MapModes: []int{1}, ExtraDepth: 4}, {Scenario: "recover-maxapps", Depth: 4, MapModes: []int{1}, ExtraDepth: 4}},
 		Thorough: []Run{{Scenario: "recover-cap-basic-fair", Depth: 6, MapModes: []int{1}, ExtraDepth: 6}, {Scenario: "recover-gang-Soft", Depth: 6, MapModes: []int{1}, ExtraDepth: 6},
 			{Scenario: "recover-qmax-dynamic", Depth: 6, MapModes: []int{1}, ExtraDepth: 6}, {Scenario: "recover-ugm-sched-2", Depth: 6, MapModes: []int{1}, ExtraDepth: 6}, {Scenario: "recover-maxapps", Depth: 6, MapModes: []int{1}, ExtraDepth: 6}},
-		QuickBudget: 150 * time.Second, ThoroughBudget: 40 * time.Minute,
+		QuickBudget: 150 * time.Second, ThoroughBudget: 12 * time.Minute,
 		Assumptions: []string{"crash points are the quiescent points between operations (all outbound messages of the last operation delivered); points with a release awaiting confirmation or a placeholder swap in flight are counted and skipped, because the statement compares totals the shim can know",
 			"at most 6 orders of the applications x 6 orders of the allocations per crash point"}})
 }
